@@ -20,6 +20,8 @@ CONSTANTS
   ContinueOnBodyless = %s
   EnterPerDecl = %s
   ResetPerFunc = %s
+  AttributePerDecl = %s
+  WithMarks = %s
 INVARIANTS Local
 """
 
@@ -27,9 +29,12 @@ INVARIANTS Local
 def run(ctx):
     thorough = ctx.tier == "thorough"
     design = {}
-    r = ctx.tlc("Walker", cfg_text=WCFG % (4 if thorough else 3, "TRUE", "TRUE", "TRUE"), workers=8, timeout=1800, expect="ok")
+    r = ctx.tlc("Walker", cfg_text=WCFG % (4 if thorough else 3, "TRUE", "TRUE", "TRUE", "TRUE", "FALSE"), workers=8, timeout=1800, expect="ok")
     design["files"] = r.distinct
-    for name, c in (("returnOnBodyless", ("FALSE", "TRUE", "TRUE")), ("stickyEnterFunc", ("TRUE", "FALSE", "TRUE")), ("noResetPerFunc", ("TRUE", "TRUE", "FALSE"))):
+    r = ctx.tlc("Walker", cfg_text=WCFG % (3 if thorough else 2, "TRUE", "TRUE", "TRUE", "TRUE", "TRUE"), workers=8, timeout=1800, expect="ok")
+    design["files_with_marks"] = r.distinct
+    for name, c in (("returnOnBodyless", ("FALSE", "TRUE", "TRUE", "TRUE", "FALSE")), ("stickyEnterFunc", ("TRUE", "FALSE", "TRUE", "TRUE", "FALSE")),
+                    ("noResetPerFunc", ("TRUE", "TRUE", "FALSE", "TRUE", "FALSE")), ("lookaheadAttributedToLastFunc", ("TRUE", "TRUE", "TRUE", "FALSE", "TRUE"))):
         r = ctx.tlc("Walker", cfg_text=WCFG % ((2,) + c), workers=2, timeout=300, expect="violation")
         design["whatif_" + name] = r.violated
     outp = ctx.path("loc.json")
